@@ -7,8 +7,10 @@ from ..runner import Case, Property
 
 TEXTS = ["Re:Zero", "a // b", "//lead", "x: y: z", "[General]", "osu file format v9", "日本語 タイトル", "quote\"d\"", "comma, separated", "Ĉirkaŭ 上 ਊ 𐐊",
          "tab\tinside", "[HitObjects]", "0,0,0,1,0", "key:value:more", "a", "trailing:", ":leading", "100%", "back\\slash", "A  B"]
-FILES = ["audio.mp3", "dir/sub/a.ogg", "with space.mp3", "colon:name.mp3", "ünï.ogg", "a[1].mp3", "x.MP4"]
-BGS = ["bg.jpg", "dir/bg.png", "with space.png", "colon:bg.png", "日本.jpg", "a.b.c.jpeg"]
+FILES = ["audio.mp3", "dir/sub/a.ogg", "with space.mp3", "colon:name.mp3", "ünï.ogg", "a[1].mp3", "x.MP4", "a", "mp3", "0", "1.5", "-1"]
+BGS = ["bg.jpg", "dir/bg.png", "with space.png", "colon:bg.png", "日本.jpg", "a.b.c.jpeg",
+       # short names and names that end like a video (the Video event has an extension rule; a Background event has none)
+       "bg", "a", "ab", "cover.AVI", "intro.mp4", "x.mov", "clip.flv", "m.mpg", "w.wmv", "v.m4v", "mp4", ".avi", "日本.MP4"]
 
 
 def f64h(x):
@@ -56,7 +58,7 @@ def one_edit(rng):
             bs.append(f"{f64h(a)}:{f64h(a + rng.choice([0.0, 650.0, 1000.5, 1e4]))}")
         return "breaks=" + (",".join(bs) if bs else "-")
     if k == "combo":
-        n = rng.randint(0, 5)
+        n = rng.choice([0, 1, 2, 3, 5, 8, 9, 10, 12, 20])
         return "combo_colors=" + (",".join(f"{rng.randint(0, 255)}.{rng.randint(0, 255)}.{rng.randint(0, 255)}.255" for _ in range(n)) if n else "-")
     name = rng.choice(["SliderBorder", "SliderTrackOverride", "My Colour", "x/y", "[Colours]", "naïve"])
     return f"custom_color={hexs(name.encode())}={rng.randint(0, 255)}.{rng.randint(0, 255)}.{rng.randint(0, 255)}.255"
